@@ -482,6 +482,17 @@ Walk:
 
 			// No next static segment found, but maybe some params or wildcard child
 			if idx < 0 {
+				// Tsr recommendation: remove the extra trailing slash (got an exact match). The wildcard children
+				// evaluated below cannot match the empty segment that follows the slash, and would otherwise hide it.
+				if !tsr && current.isLeaf() && len(path)-charsMatched == 1 && path[charsMatched] == slashDelim &&
+					(current.paramChildIndex >= 0 || current.wildcardChildIndex >= 0) {
+					tsr = true
+					n = current
+					if !lazy {
+						copyWithResize(c.tsrParams, c.params)
+					}
+				}
+
 				// We have at least a param child which is has higher priority that catch-all
 				if current.paramChildIndex >= 0 {
 					// We have also a wildcard child, save it for later evaluation
